@@ -26,8 +26,11 @@ def main():
     ap.add_argument("--props", default="")
     ap.add_argument("--tier", default="quick")
     ap.add_argument("--skip-confirm", action="store_true")
+    ap.add_argument("--wt", action="store_true", help="run the checks against a scratch worktree (VERIF_REPO) instead of applying the patch to /repo")
     a = ap.parse_args()
     src = "/tmp/seed/%s/out/%s" % (a.prop, a.mk)
+    if not os.path.exists(src):
+        src = os.path.join(ROOT, "seeded", "%s-%s" % (a.prop, a.mk))  # re-evaluation of a stored change
     patch = os.path.join(src, "patch.diff")
     sid = "%s-%s" % (a.prop, a.mk)
     meta = {"id": sid, "breaks_property": a.prop, "source": "independent sub-agent given only the property text and a scratch worktree",
@@ -51,20 +54,32 @@ def main():
         print("confirm:", {k: v for k, v in meta.items() if isinstance(v, bool)})
     # run the checks against /repo with the change applied
     props = [p for p in (a.props.split(",") if a.props else [a.prop]) if p]
-    rc, out = sh(["git", "-C", "/repo", "status", "--porcelain"])
-    assert out.strip() == "", "/repo not clean: " + out
     results = {}
-    rc, out = sh(["git", "-C", "/repo", "apply", patch]); assert rc == 0, out
+    if a.wt:
+        wt2 = "/tmp/seedrun-%s" % sid
+        sh(["git", "-C", "/repo", "worktree", "remove", "--force", wt2]); shutil.rmtree(wt2, ignore_errors=True)
+        rc, out = sh(["git", "-C", "/repo", "worktree", "add", "-q", "--detach", wt2, "HEAD"]); assert rc == 0, out
+        rc, out = sh(["git", "apply", patch], cwd=wt2); assert rc == 0, out
+        env2 = dict(ENV, VERIF_REPO=wt2)
+    else:
+        rc, out = sh(["git", "-C", "/repo", "status", "--porcelain"])
+        assert out.strip() == "", "/repo not clean: " + out
+        rc, out = sh(["git", "-C", "/repo", "apply", patch]); assert rc == 0, out
+        env2 = ENV
     try:
         for p in props:
             t0 = time.time()
-            rc, out = sh([os.path.join(ROOT, "check"), p, "--tier", a.tier], cwd=ROOT, timeout=3600)
+            pr = subprocess.run([os.path.join(ROOT, "check"), p, "--tier", a.tier], cwd=ROOT, env=env2, stdout=subprocess.PIPE, stderr=subprocess.STDOUT, text=True, timeout=3600)
+            rc, out = pr.returncode, pr.stdout
             lines = [l for l in out.split("\n") if l.startswith("VIOLATION") or l.startswith(p + " tier=")]
             results[p] = {"exit": rc, "lines": lines, "wall_s": round(time.time() - t0, 1)}
             print(p, rc, lines)
     finally:
-        sh(["git", "-C", "/repo", "checkout", "--", "."])
-        rc, out = sh(["git", "-C", "/repo", "status", "--porcelain"]); assert out.strip() == "", out
+        if a.wt:
+            sh(["git", "-C", "/repo", "worktree", "remove", "--force", wt2]); shutil.rmtree(wt2, ignore_errors=True)
+        else:
+            sh(["git", "-C", "/repo", "checkout", "--", "."])
+            rc, out = sh(["git", "-C", "/repo", "status", "--porcelain"]); assert out.strip() == "", out
     meta["checks_run"] = results
     meta["detected_by"] = [p for p, r in results.items() if r["exit"] != 0]
     meta["detected_with_failing_input"] = [p for p, r in results.items() if any(l.startswith("VIOLATION") and "no-failing-input-found" not in l for l in r["lines"])]
@@ -77,10 +92,12 @@ def main():
         hist = old.get("history", [])
         hist.append({"detected_by_before_strengthening": old.get("detected_by", []), "checks": {p: r["lines"][-1:] for p, r in old.get("checks_run", {}).items()}})
         meta["history"] = hist
-    shutil.copyfile(patch, os.path.join(d, "patch.diff"))
-    shutil.copyfile(os.path.join(src, a.demo_src), os.path.join(d, os.path.basename(a.demo_src)))
-    if os.path.exists(os.path.join(src, "README.md")):
-        shutil.copyfile(os.path.join(src, "README.md"), os.path.join(d, "README.md"))
+    if os.path.abspath(src) != os.path.abspath(d):
+        shutil.copyfile(patch, os.path.join(d, "patch.diff"))
+        shutil.copyfile(os.path.join(src, a.demo_src), os.path.join(d, os.path.basename(a.demo_src)))
+        if os.path.exists(os.path.join(src, "README.md")):
+            shutil.copyfile(os.path.join(src, "README.md"), os.path.join(d, "README.md"))
+    if os.path.exists(os.path.join(d, "README.md")):
         meta["needs_to_manifest"] = "see README.md"
     json.dump(meta, open(os.path.join(d, "meta.json"), "w"), indent=1)
     print("stored", d, "detected_by", meta["detected_by"], "with input", meta["detected_with_failing_input"])
